@@ -724,23 +724,16 @@ func (r *realm) authClient(sid wamp.ID, client wamp.Peer, details wamp.Dict) (*w
 
 // getAuthenticator finds the first authenticator registered for the methods.
 func (r *realm) getAuthenticator(methods []string) (auth auth.Authenticator, authMethod string) {
-	sync := make(chan struct{})
-	r.actionChan <- func() {
-		// Iterate through the methods and see if there is an Authenticator for
-		// the method.
-		if len(r.authenticators) != 0 {
-			for _, method := range methods {
-				if a, ok := r.authenticators[method]; ok {
-					auth = a
-					authMethod = method
-					break
-				}
-			}
+	// The authenticators are set when the realm is created and never change,
+	// so they are read here without going through the realm goroutine. A
+	// client can be authenticating while the realm is being closed or removed;
+	// sending on the realm's action channel would then hit a closed channel.
+	for _, method := range methods {
+		if a, ok := r.authenticators[method]; ok {
+			return a, method
 		}
-		close(sync)
 	}
-	<-sync
-	return
+	return nil, ""
 }
 
 func (r *realm) registerMetaProcedure(procedure wamp.URI, f func(*wamp.Invocation) wamp.Message) {
